@@ -77,8 +77,10 @@ let cache_of = function POk c -> Some c | PErr _ -> None
 
 (* the model's cache writer keeps its string table as an association list (quadratic); for very large
    corpus files only the specification and the mapper model are evaluated *)
-let big_limit = 150_000
+let big_limit = 30_000        (* reader model: read_string is linear in the string section *)
+let big_limit_writer = 400_000 (* writer model: association-list string table *)
 let is_big st = List.compare_length_with st.bytes big_limit > 0
+let is_big_writer st = List.compare_length_with st.bytes big_limit_writer > 0
 
 (* answers of the model's cache reader on a parsed cache *)
 let c_class pc name = match cache_of pc with None -> "noparse" | Some c -> tok_of_ostr (c_remap_class c name)
@@ -145,7 +147,7 @@ let handle (line : string) : string =
     let s = str_of_hex s in
     let rs = Lazy.force st.rs in
     "s=" ^ show_sig (deobfuscate (sclass rs) s) ^ ";c=" ^ (if is_big st then "SKIPPED" else c_sig (Lazy.force st.pc) s)
-  | ["W"] -> if is_big st then "w=SKIPPED" else "w=" ^ hex_of_str (Lazy.force st.cbytes)
+  | ["W"] -> if is_big_writer st then "w=SKIPPED" else "w=" ^ hex_of_str (Lazy.force st.cbytes)
   | ["X"; h] -> let r = parse (str_of_hex h) in xcache := r; "r=" ^ show_presult r
   | ["k"; c] -> "c=" ^ c_class !xcache (str_of_hex c)
   | ["t"; c; m] -> "c=" ^ c_method !xcache (str_of_hex c) (str_of_hex m)
